@@ -51,6 +51,27 @@ namespace verif
             return fd;
         }
 
+        // the two halves of connect_loopback, for a client that wants its descriptor number taken before something
+        // else happens (descriptor numbers are handed out lowest-first, to the harness's sockets and to the server's)
+        inline int make_socket()
+        {
+            int fd = ::socket(AF_INET, SOCK_STREAM | SOCK_CLOEXEC, 0);
+            if (fd >= 0)
+            {
+                int one = 1;
+                setsockopt(fd, IPPROTO_TCP, TCP_NODELAY, &one, sizeof one);
+            }
+            return fd;
+        }
+        inline bool connect_socket(int fd, uint16_t port)
+        {
+            sockaddr_in a {};
+            a.sin_family      = AF_INET;
+            a.sin_port        = htons(port);
+            a.sin_addr.s_addr = htonl(INADDR_LOOPBACK);
+            return ::connect(fd, reinterpret_cast<sockaddr*>(&a), sizeof a) == 0;
+        }
+
         inline bool send_all(int fd, const char* p, size_t n)
         {
             while (n)
